@@ -130,6 +130,15 @@ pub fn judge_session(rep: &LoopReport) -> Judged {
                 if legal > 128 {
                     j.probes.add("go_on_position_with_more_than_128_legal_moves", 1);
                 }
+                {
+                    let t: Vec<&str> = x.line.split_whitespace().collect();
+                    if t.len() == 3 && t[1] == "depth" && t[2].parse::<u32>().map(|d| d >= 5).unwrap_or(false) {
+                        j.probes.add("depth_limited_go_to_depth_5_or_more", 1);
+                        if x.output.iter().any(|l| l.contains("score cp 2147") || l.contains("score cp -2147")) {
+                            j.probes.add("deep_go_reported_a_mate_score", 1);
+                        }
+                    }
+                }
                 if legal == 0 {
                     j.probes.add(if pos.in_check() { "go_on_mate_position" } else { "go_on_stalemate_position" }, 1);
                     if !x.output.iter().any(|l| l.trim() == "bestmove 0000") {
@@ -182,7 +191,14 @@ fn gen_go(rng: &mut Rng, pos: &Pos, cost_node_ns: u64, explosive: bool) -> Strin
     let kind = if explosive { rng.range(3, 9) } else { rng.below(10) };
     match kind {
         0 | 1 | 2 => {
-            let maxd = if pos.piece_count() <= 8 { 4 } else { 3 };
+            // deeper where the tree is small (tiny endgames: mates and stalemates deep in the
+            // tree, a table that answers most of the later iterations)
+            let maxd = match pos.piece_count() {
+                0..=4 => 7,
+                5 => 5,
+                6..=8 => 4,
+                _ => 3,
+            };
             format!("go depth {}", rng.range(1, maxd))
         }
         3 | 4 => {
@@ -418,8 +434,13 @@ pub fn generate_and_run(seed: u64) -> (Scenario, LoopReport) {
                         let p = interpret_position(&format!("position {}", r)).unwrap().0;
                         (r, p)
                     } else {
-                        match g.rng.below(4) {
+                        match g.rng.below(5) {
                             0 | 1 => ("startpos".to_string(), Pos::startpos()),
+                            4 => {
+                                // a tiny endgame (two kings and one to five men), searched deep
+                                let p = gen::sparse_position(&mut g.rng);
+                                (format!("fen {}", crate::sworld::fen_for_search(&p)), p)
+                            }
                             2 => {
                                 let p = Pos::from_fen(*g.rng.pick(gen::EDGE_FENS)).unwrap();
                                 (format!("fen {}", p.to_fen()), p)
